@@ -230,9 +230,11 @@ def reset(d):
     d._disassembler__i = None
 
 
-def real_decode(d, bs, **kargs):
-    """d(bs) from a clean pending state; returns ('ok', instr) | ('none', None) | ('raise', ExcName)"""
-    reset(d)
+def real_decode(d, bs, fresh=True, **kargs):
+    """d(bs) from a clean pending state (fresh=False: whatever state earlier calls left);
+    returns ('ok', instr) | ('none', None) | ('raise', ExcName)"""
+    if fresh:
+        reset(d)
     try:
         i = d(bs, **kargs)
     except BaseException as e:
